@@ -100,6 +100,8 @@ def binding(rep, tier, sd, wd):
 def _e2e_job(job):
     if job[0] == 'probe':
         return [getattr(accdrv, job[1])(job[2])]
+    if job[0] == 'irq':
+        return accdrv.irq_worker(job[1])
     return accdrv.custom_worker(job[1]) if job[0] == 'cu' else accdrv.c12_worker(job[1])
 
 
@@ -124,6 +126,10 @@ def end_to_end(rep, accs, tier, sd, wd):
     nb = 1 if q else 3
     for k in range(16):
         jobs.append(('b', (sd * 389 + k, nb, tier, wd)))
+    # loaders that sample the tape with interrupts enabled, block starts placed around the frame boundary
+    nirq = 16 if q else 64
+    for k in range(nirq):
+        jobs.append(('irq', (sd * 613 + k, [sd * nirq + k], tier, wd)))
     with mp.get_context('fork').Pool(16) as pool:
         parts = pool.map(_e2e_job, jobs, chunksize=1)
     cases = [c for p in parts for c in p if not c['key'].startswith('probe/')]
@@ -148,6 +154,17 @@ def end_to_end(rep, accs, tier, sd, wd):
     if ncustom < 0.7 * n * rounds or len(shapes) < 0.7 * n or nb12 < 10:
         raise MachineryError('too few tapes load: custom %d (shapes %d of %d), bin2tap %d; not loading: %s'
                              % (ncustom, len(shapes), n, nb12, notload[:8]))
+    irq = [c for c in live if c['key'].startswith('irq/')]
+    irq_early = sum(c['irq']['early'] for c in irq)
+    irq_window = sum(c['irq']['window'] for c in irq)
+    irq_ints = sum(1 for c in irq for v in c['irq']['ints'] if v > 0)
+    irq_py = sum(1 for c in irq for u in c['runs'] if 'python=1' in u['cfg'])
+    irq_ds = set(p if p < 64 else p - c['gen']['frame'] for c in irq for ps in c['irq']['pos'].values() for p in ps)
+    if len(irq) < 0.7 * nirq or irq_early < 2 * nirq or irq_window <= irq_early or irq_ints < 10 * nirq or irq_py < 3 * nirq \
+            or not set(accdrv.IRQ_FIXED) <= irq_ds:
+        raise MachineryError('interrupt-enabled loaders are vacuous: %d of %d tapes load, %d block starts in the first 21 T-states of a frame, '
+                             '%d in the first 32, %d runs that accepted interrupts while sampling, %d Python runs, frame positions %s'
+                             % (len(irq), nirq, irq_early, irq_window, irq_ints, irq_py, sorted(irq_ds)))
     # pairwise cover of the speed-up options over the suite (vacuity)
     seen = set()
     for c in live:
@@ -172,8 +189,9 @@ def end_to_end(rep, accs, tier, sd, wd):
     missing = need - seen
     if missing:
         raise MachineryError('configuration pairs never exercised: %s' % sorted(missing)[:6])
-    log('C13: %d tapes (%d custom-loader over %d loop shapes, %d bin2tap), %d tap2sna runs; %d tapes not loading in any configuration'
-        % (len(live), ncustom, len(shapes), nb12, sum(len(c['runs']) for c in live), len(notload)))
+    log('C13: %d tapes (%d custom-loader over %d loop shapes, %d bin2tap, %d with interrupts enabled: %d block starts inside the INT window), '
+        '%d tap2sna runs; %d tapes not loading in any configuration'
+        % (len(live), ncustom, len(shapes), nb12, len(irq), irq_window, sum(len(c['runs']) for c in live), len(notload)))
     if not all(u['t'] >= 0 for c in live for u in c['runs'] if not u['err']):
         raise MachineryError('the clock could not be observed (tap2sna.get_state hook)')
     live += probes
@@ -184,6 +202,9 @@ def end_to_end(rep, accs, tier, sd, wd):
         for u in c['runs']:
             rep.count(('e2e', c['key'], u['cfg']))
         rep.drift += len(c.get('dropped') or [])
+    rep.extra['interrupt_enabled_loaders'] = dict(tapes=len(irq), block_starts_in_first_21_tstates_of_a_frame_with_iff1=irq_early,
+                                                  block_starts_in_int_window=irq_window, runs_with_interrupts_accepted_while_sampling=irq_ints,
+                                                  python_runs=irq_py, frame_positions=sorted(irq_ds))
     c0 = live[0]
     rep.sample({'tape': c0['key'], 'gen': c0['gen'], 'start': c0['start'], 'configs': [u['cfg'] for u in c0['runs']][:8],
                 'default_run': {k: c0['runs'][0][k] for k in ('pc', 'sp', 'r', 't', 'regs')}})
@@ -195,6 +216,7 @@ def end_to_end(rep, accs, tier, sd, wd):
         kind = c['key'].split('/dly')[0] if c['key'].startswith('custom/') else c['key']
         slim = dict(c)
         slim['runs'] = [{k: v for k, v in x.items() if k != 'pages'} for x in (c['runs'][0], lead, u)]
+        slim.pop('irq', None)
         rep.violation('e2e:%s:%s:%s' % (kind, cl, u['cfg']),
                       'tape %s (--start %d): configuration [%s] vs [%s]: %s differs (pc %d/%d sp %d/%d R %d/%d T %d/%d) %s'
                       % (c['key'], c['start'], u['cfg'], lead['cfg'] if cl in ('registers', 'r', 'tstates', 'ram', '7ffd') else ('the bytes on the tape' if cl == 'data-bytes' else c['runs'][0]['cfg']),
@@ -227,7 +249,10 @@ def run(tier):
                 'every A x carry x {JR,JP} enumerated by TLC; (B) scenarios = loop shape x {near, limit, level, late, iff, blockend} / DEC A '
                 'variants / port-read programs over 1-3 block tapes x {py, c} x speed-up configuration; (C) tapes = bin2tap output (C12 '
                 'generator) and custom-loader TZX tapes (relocated LD-BYTES around each usable recognised loop shape, delay constant, '
-                'turbo/headerless blocks, a ROM-loaded block over the live return stack whose words give PC and the return address of the caller) x configuration matrix; distinct_nontrivial = distinct (scenario key) and (tape key, configuration)')
+                'turbo/headerless blocks, a ROM-loaded block over the live return stack whose words give PC and the return address of the caller) x configuration matrix, '
+                'and tapes of 1-3 blocks for the same relocated loader with EI instead of DI under IM 2 (48K and 128K), every block start set to a chosen '
+                'frame position (0..40 and -40..-1 T-states around the frame boundary, via a leading pulse, the pause and first-edge) x '
+                '{python 0/1, pause, accelerator, cmio, fast-load}; distinct_nontrivial = distinct (scenario key) and (tape key, configuration)')
     rep.assumptions = [
         'tap2sna does not write the clock into the snapshot; T is read from simulator.registers at the moment tap2sna takes the snapshot '
         '(wrapper around tap2sna.get_state), everything else comes from the snapshot file via the independent decoder',
@@ -236,6 +261,9 @@ def run(tier):
         'their own environment; an environment whose default run does not load the tape is dropped (counted as drift)',
         'generated tapes keep at least 400 ms between blocks; zero-gap blocks are covered only by the deterministic probe '
         'e2e:probe/zero-gap-pause (pause=0 vs pause=1)',
+        'interrupt-enabled loaders run under IM 2 with a 10-byte routine (the ROM IM 1 routine takes ~1000 T-states and the relocated '
+        'LD-BYTES then never sees 256 clean leader pairs, i.e. the tape does not load); frame positions of block starts are taken from '
+        'the real parser (tap2sna._get_tape_blocks + tape.get_edges) in a dry run',
         'obligations start every sampling loop at its first byte with the registers the loop itself assumes (EAR mask register, C=0xFE for '
         'IN r,(C)); pulses shorter than one loop period between two samples are outside the model',
     ]
